@@ -27,6 +27,35 @@ pub enum Step {
     Pending(u8),
     /// yield `Err(Execution(msg))`; the stream ends afterwards
     Error(String),
+    /// stay `Pending` until the harness opens the gate
+    Gate(Arc<Gate>),
+}
+
+/// a latch the harness opens to let a scripted partition continue
+#[derive(Debug, Default)]
+pub struct Gate {
+    open: std::sync::atomic::AtomicBool,
+    waker: std::sync::Mutex<Option<std::task::Waker>>,
+}
+
+impl Gate {
+    pub fn open(&self) {
+        self.open.store(true, Ordering::SeqCst);
+        if let Ok(mut w) = self.waker.lock() {
+            if let Some(w) = w.take() {
+                w.wake();
+            }
+        }
+    }
+    fn poll_open(&self, cx: &mut Context<'_>) -> bool {
+        if self.open.load(Ordering::SeqCst) {
+            return true;
+        }
+        if let Ok(mut w) = self.waker.lock() {
+            *w = Some(cx.waker().clone());
+        }
+        self.open.load(Ordering::SeqCst)
+    }
 }
 
 /// observable counters of one scripted table (shared by every scan of it)
@@ -87,7 +116,7 @@ pub struct ScriptedExec {
 }
 
 impl ScriptedExec {
-    fn new(schema: SchemaRef, projection: Option<Vec<usize>>, parts: Arc<Vec<Vec<Step>>>, rows: usize, counters: Arc<Counters>) -> Self {
+    pub fn new(schema: SchemaRef, projection: Option<Vec<usize>>, parts: Arc<Vec<Vec<Step>>>, rows: usize, counters: Arc<Counters>) -> Self {
         let eq = EquivalenceProperties::new(schema.clone());
         let cache = PlanProperties::new(eq, Partitioning::UnknownPartitioning(parts.len().max(1)), EmissionType::Incremental, Boundedness::Bounded);
         ScriptedExec { schema, projection, parts, rows, cache: Arc::new(cache), counters }
@@ -169,6 +198,13 @@ impl Stream for ScriptedStream {
                     }
                     *n -= 1;
                     cx.waker().wake_by_ref();
+                    return Poll::Pending;
+                }
+                Some(Step::Gate(g)) => {
+                    if g.poll_open(cx) {
+                        self.steps.pop_front();
+                        continue;
+                    }
                     return Poll::Pending;
                 }
                 Some(Step::Batch(_)) => {
